@@ -73,6 +73,60 @@ const ADVERSARIAL: &[&str] = &[
     "---@alias R<T> R<T[]>\n---@alias Q<T> T extends any and Q<T> or T\n---@type R<integer>\nlocal r\n---@type Q<string>\nlocal q\nprint(r[1], q.x)\n",
 ];
 
+/// Type declarations that refer to themselves (directly, mutually, through generics, through
+/// inheritance) …
+const RECURSIVE_DECLS: &[(&str, &str)] = &[
+    ("---@alias Loop Loop|string\n", "Loop"),
+    ("---@alias Arr Arr[]\n", "Arr"),
+    ("---@alias P Q\n---@alias Q P?\n", "P"),
+    ("---@alias Opt Opt?\n", "Opt"),
+    ("---@alias Fn fun(a: Fn): Fn\n", "Fn"),
+    ("---@alias Tbl table<Tbl, Tbl>\n", "Tbl"),
+    ("---@alias Tup [Tup, Tup?]\n", "Tup"),
+    ("---@alias G<T> G<T[]>|T\n", "G<integer>"),
+    ("---@alias C<T> T extends string and C<T> or C<T[]>\n", "C<string>"),
+    ("---@class Self: Self\n---@field next Self\n", "Self"),
+    ("---@class X1: Y1\n---@class Y1: X1\n---@field f X1\n", "X1"),
+    ("---@class Gen<T>: Gen<Gen<T>>\n---@field v T\n", "Gen<string>"),
+    ("---@class Op\n---@operator add(Op): Op\n---@operator call(Op): Op\n---@operator index(Op): Op\n---@operator concat(Op): Op\n", "Op"),
+    ("---@enum En\nEn = { A = 1, B = En }\n", "En"),
+];
+
+/// … and every way a value of such a type can be used.
+const USAGES: &[&str] = &[
+    "local i = 1\nlocal r = v[i]\n",
+    "local r = v[v]\n",
+    "local r = v.field.field\n",
+    "local r = v[1][2][3]\n",
+    "local r = v()\nlocal s = v(v)(v)\n",
+    "local r = v:method(v)\n",
+    "local r = v + v\nlocal s = -v\nlocal t = v .. v\nlocal u = #v\n",
+    "local r = v == v\nlocal s = v < v\nlocal t = not v\nlocal u = v and v or v\n",
+    "for k, x in pairs(v) do local y = x[k] end\nfor _, x in ipairs(v) do end\nfor x in v do end\n",
+    "if v then local w = v.a elseif type(v) == 'string' then local w = v:upper() else local w = v[1] end\n",
+    "---@param p T\n---@generic T\n---@return T\nlocal function id(p) return p end\nlocal r = id(v)\nlocal s = id(v).x\n",
+    "---@type T\nlocal w = v\nw = v\nv.x = w\nv[1] = v\n",
+    "local function f(...) return ... end\nlocal a, b = f(v, v)\nlocal t = { v, x = v, [v] = v }\nlocal r = t.x.y\n",
+    "---@cast v -nil\n---@cast v +string\nlocal r = v\nlocal s = v --[[@as T]]\n",
+    "local r = setmetatable({}, { __index = v })\nlocal s = r.x\nlocal t = setmetatable(v, v)\n",
+];
+
+fn recursive_case(rng: &mut Rng) -> String {
+    let (decl, tyname) = rng.pick(RECURSIVE_DECLS);
+    let mut t = String::from(decl);
+    if rng.chance(1, 3) {
+        let (d2, _) = rng.pick(RECURSIVE_DECLS);
+        if d2 != decl {
+            t.push_str(d2);
+        }
+    }
+    t.push_str(&format!("---@type {tyname}\nlocal v\n"));
+    for _ in 0..rng.range(1, 3) {
+        t.push_str(&rng.pick(USAGES).replace("---@type T", &format!("---@type {tyname}")).replace("--[[@as T]]", &format!("--[[@as {tyname}]]")));
+    }
+    t
+}
+
 struct Case {
     files: Vec<(String, String)>, // (relative path, text)
     version: usize,
@@ -83,7 +137,11 @@ struct Case {
 fn gen_case(rng: &mut Rng, corpus: &Corpus) -> Case {
     let nfiles = rng.range(1, 3);
     let mut files = Vec::new();
-    let family: &'static str = match rng.below(10) {
+    // recursive-types cases run in a child process each (and are re-run under gdb when they die):
+    // a small share is enough, every (declaration, usage) pair is reached within a few runs
+    let roll = if rng.below(30) == 0 { 10 } else { rng.below(10) };
+    let family: &'static str = match roll {
+        10 => "recursive-types",
         0..=3 => "corpus-mutant",
         4..=5 => "adversarial",
         6 => "corpus",
@@ -106,6 +164,7 @@ fn gen_case(rng: &mut Rng, corpus: &Corpus) -> Case {
                 }
                 t
             }
+            "recursive-types" => recursive_case(rng),
             "corpus" => corpus.pick(rng).to_string(),
             "annot-soup" => {
                 // annotation-heavy soup: doc tags on their own lines, glued to simple statements
@@ -341,7 +400,34 @@ pub fn run(ctx: &mut Ctx) {
             break;
         }
         let hi = (i + batch).min(n);
-        let cases: Vec<Case> = (i..hi).map(|k| gen_case(&mut Rng::new(ctx.case_seed(k)), &corpus)).collect();
+        let all: Vec<Case> = (i..hi).map(|k| gen_case(&mut Rng::new(ctx.case_seed(k)), &corpus)).collect();
+        // the families that aim at unbounded recursion run one case per sacrificial child process:
+        // a stack overflow aborts the process and would take the rest of the shard with it
+        let (risky, cases): (Vec<Case>, Vec<Case>) = all.into_iter().partition(|c| c.family == "recursive-types");
+        for c in &risky {
+            let cj = case_json(c);
+            ctx.clause(&format!("family:{}", c.family));
+            match crate::util::isolated("C12", &cj, &ctx.work.clone(), 600) {
+                crate::util::ChildOutcome::Held => {
+                    ctx.clause("no-panic:index+diagnose+queries");
+                    let mut h = (c.version as u64) << 8 | c.strict as u64;
+                    for (n, t) in &c.files {
+                        h = h.wrapping_mul(1099511628211).wrapping_add(fnv(n.as_bytes()) ^ fnv(t.as_bytes()));
+                    }
+                    ctx.held(h, true);
+                }
+                crate::util::ChildOutcome::Violated(_) => {
+                    // a panic: judge in-process to get the shrunk witness and the signature
+                    judge(ctx, c, 0, None);
+                }
+                crate::util::ChildOutcome::Died(sig) => {
+                    let cls = crate::util::abort_signature("C12", &cj, &ctx.work.clone());
+                    ctx.violated(&format!("C12:abort:{cls}"), &format!("process killed by signal {sig}; files: {:?}", c.files.iter().map(|(n, t)| format!("{n}: {}", clip(t, 300))).collect::<Vec<_>>()), cj);
+                }
+                crate::util::ChildOutcome::Timeout => ctx.inconclusive("child-watchdog"),
+                crate::util::ChildOutcome::Error(e) => ctx.inconclusive(&format!("child-error:{}", clip(&e, 40))),
+            }
+        }
         let results = {
             let ctx_cell = std::sync::Mutex::new(&mut *ctx);
             on_stack(STACK, || {
